@@ -592,3 +592,30 @@ contract(
     canaries=[("mean_subtracted_first", "return (a**2).mean()", "return ((a - a.mean())**2).mean()")],
     notes="the body under the on_array decorator; products are uninterpreted (congruence)",
 )
+
+contract(
+    "cnvlib/descriptives.py::weighted_mad#body",
+    params=dict(a=VecT(Real), weights=VecT(Real), scale_to_sd=Bool),
+    returns=Real,
+    requires=["len(a) == len(weights)", "len(a) >= 2"],
+    ensures=[
+        ("non_negative", "result >= 0"),
+        ("zero_on_constant_data", "implies(forall(0, len(a), lambda k: a[k] == a[0]), result == 0)"),
+    ],
+    props=("C19",), domain="skip",
+    canaries=[("signed_deviations", "weighted_median(np.abs(a - a_median), weights)", "weighted_median(a - a_median, weights)")],
+    notes="the body under on_weighted_array(0) (which hands it two NaN-free float arrays of equal length >= 2); rests on the "
+          "assumed contract of the decorated weighted_median (a value within the range of its data), whose body is proved "
+          "separately (weighted_median#body)",
+)
+
+contract(
+    "cnvlib/descriptives.py::weighted_std#body",
+    params=dict(a=VecT(Real), weights=VecT(Real)),
+    returns=Real,
+    requires=["len(a) == len(weights)", "len(a) >= 2", "forall(0, len(weights), lambda k: weights[k] >= 0)", "sumof(weights) > 0"],
+    ensures=[("non_negative", "result >= 0")],
+    props=("C19",), domain="skip",
+    canaries=[("negated", "return np.sqrt(var)", "return -np.sqrt(var) - 1")],
+    notes="the body under on_weighted_array(0); sqrt is abstract (non-negative on non-negative arguments)",
+)
